@@ -132,7 +132,7 @@ class BDSKModel(CallableModel):
         optionals['origin_is_root_edge'] = data.get('origin_is_root_edge', False)
         if 'times' in data:
             if isinstance(data['times'], list):
-                optionals['times'] = Parameter(None, data['times'])
+                optionals['times'] = Parameter(None, torch.tensor(data['times']))
             else:
                 optionals['times'] = process_object(data['times'], dic)
         optionals['survival'] = data.get('survival', True)
